@@ -98,7 +98,36 @@ def run_case(case, work, rec):
         near = [c for c in near if c in cset]
         rng.shuffle(near)
     picked = near[:max(6, case["npts"] // 3)] + cands[:case["npts"]]
-    for lv, bi, ijk in picked:
+    # queries between boxes (a quarter of a cell from a box face, or on it): what they return is not this property's
+    # business, but they are made on the same reader, *between* the interior queries - whatever they leave behind in
+    # it must not change the answers that follow
+    faces = []
+    for lv in range(m.nlevels):
+        for bi, b in enumerate(m.boxes[lv]):
+            for d in range(3):
+                for side in (0, 1):
+                    for off in (0.25, 0.0):
+                        x = (b.lo[d] + off) if side == 0 else (b.hi[d] + 1 - off)
+                        fp = [m.geo_low[k] + (b.lo[k] + b.shape[k] / 2.0 + 0.5 * (b.shape[k] % 2 == 0)) * m.dx[lv][k] for k in range(3)]
+                        fp[d] = m.geo_low[d] + x * m.dx[lv][d]
+                        if m.geo_low[d] + 0.6 * m.dx[0][d] < fp[d] < m.geo_high[d] - 0.6 * m.dx[0][d]:
+                            faces.append(fp)
+    rng.shuffle(faces)
+
+    def between_boxes():
+        if not faces:
+            return
+        fp = faces[rng.randrange(len(faces))]
+        try:
+            pck[rng.randrange(nf)](*fp)
+            rec.count("between_boxes_queries_interleaved")
+        except Exception as e:
+            rec.count("between_boxes_queries_interleaved_refused")
+            rec.seen("between_boxes_refusals", f"{type(e).__name__}: {str(e)[:60]}")
+
+    for qi, (lv, bi, ijk) in enumerate(picked + picked[:6]):      # the first six once more, after everything else
+        if qi == 1 or rng.random() < 0.25:
+            between_boxes()
         b = m.boxes[lv][bi]
         pt = [m.geo_low[d] + (b.lo[d] + ijk[d] + 0.5) * m.dx[lv][d] for d in range(3)]
         arr = m.data[lv][bi]
@@ -116,7 +145,7 @@ def run_case(case, work, rec):
             rg = [[a, a, a + 2], [a, a + 2, a + 2]][rng.randrange(2)]
             picks.append([(f"repgap:{rg}", rg, rg, False), (f"repgapnames:{rg}", [keys[i] for i in rg], rg, False)][rng.randrange(2)])
         for fd, fsel, comps, single in picks:
-            key = (digest, fd, lv, bi, ijk)
+            key = (digest, fd, lv, bi, ijk) + (() if qi < len(picked) else ("again",))
             descr = f"[{fd}] at point {pt} (centre of cell {ijk} of box {bi}, level {lv})"
             if rng.random() < 0.3:
                 # the caller read this box earlier and overwrote the array it got (it is the caller's):
